@@ -560,7 +560,7 @@ def _two_phase(m, viol, stats):
                  lin=dict({k: v for k, v in m["lin"].items() if int(k) != last}, **{str(last): 0.07}), limit=None)
     base = dict(final, bins=final["bins"][:-1], order=[o for o in final["order"] if last not in o],
                 lin={k: v for k, v in final["lin"].items() if int(k) != last})
-    SIM.reset({"monitor": False})
+    SIM.reset({"max_solves": 4000, "max_wall": 90.0, "monitor": False})
     M, B, bnames, P, pnames, E, o_abs, one = _build(base)
     first = list(M.solutions(base["gap"], limit=1))
     # continue building
@@ -574,7 +574,7 @@ def _two_phase(m, viol, stats):
 
 def _interleaved(m1, m2, viol, stats):
     """Two enumerations alive at the same time, consumed in lock-step."""
-    SIM.reset({"monitor": False})
+    SIM.reset({"max_solves": 4000, "max_wall": 90.0, "monitor": False})
     A = _build(m1)
     Bm = _build(m2)
     g1 = A[0].solutions(m1["gap"], limit=m1["limit"])
@@ -657,7 +657,7 @@ def _w3(seg, viol, stats):
     rng = random.Random(seg["w3_seed"])
     gene = Gene(script_path("aldy.tests.resources/toy.yml"), genome="hg19")
     for rep in range(3):
-        SIM.reset({"adversary": rng.randint(0, 10**9), "monitor": True})
+        SIM.reset({"max_solves": 4000, "max_wall": 90.0, "adversary": rng.randint(0, 10**9), "monitor": True})
         prof = Profile("test", gap=rng.choice([0, 0.1, 0.5]))
         # structure stage
         cnv = {r: (round(rng.choice([0, 1, 2, 2, 3]) + rng.uniform(-0.4, 0.4), 2),
@@ -727,7 +727,7 @@ def run_segment(seg):
             if sum(1 for o in table.values() if abs(o - best) < 1e-9) > 1:
                 stats["ties"] += 1
         # --- fault-free reference configuration: plain CBC
-        SIM.reset({"monitor": True})
+        SIM.reset({"max_solves": 4000, "max_wall": 90.0, "monitor": True})
         r = _run_enum(m, table, "plain", viol, unsound, stats, sample)
         runs += 1
         if r is None:
@@ -737,12 +737,12 @@ def run_segment(seg):
             viol.append({"clause": f["clause"], "detail": dict(f, mode="plain", model=m)})
         # --- adversarial vertex choice
         for a in seg["advs"]:
-            SIM.reset({"adversary": a, "monitor": True})
+            SIM.reset({"max_solves": 4000, "max_wall": 90.0, "adversary": a, "monitor": True})
             _run_enum(m, table, "adversary", viol, unsound, stats)
             merge_fired()
             runs += 1
         # --- integrality jitter: the yielded names must not change
-        SIM.reset({"jitter": seg["jitter"], "monitor": True})
+        SIM.reset({"max_solves": 4000, "max_wall": 90.0, "jitter": seg["jitter"], "monitor": True})
         r = _run_enum(m, table, "jitter", viol, unsound, stats)
         merge_fired()
         runs += 1
@@ -752,7 +752,7 @@ def run_segment(seg):
         # --- fault enumeration: every kind at every solve index of the enumeration
         for k in range(min(nsolves, 12)):
             for kind in FAULT_KINDS:
-                SIM.reset({"faults": [{"at": k, "kind": kind, "seed": k}], "monitor": False})
+                SIM.reset({"max_solves": 4000, "max_wall": 90.0, "faults": [{"at": k, "kind": kind, "seed": k}], "monitor": False})
                 r = _run_enum(m, table, f"fault:{kind}", viol, unsound, stats)
                 merge_fired()
                 runs += 1
@@ -780,7 +780,7 @@ def run_segment(seg):
     for m1, m2 in zip(ok_models[0::2], ok_models[1::2]):
         runs += _interleaved(m1, m2, viol, stats)
     if seg.get("w2"):
-        SIM.reset({"monitor": False})
+        SIM.reset({"max_solves": 4000, "max_wall": 90.0, "monitor": False})
         _w2(viol, stats)
         runs += 1
     if seg.get("w3"):
